@@ -4,7 +4,7 @@ import corelib
 
 SPEC = dict(
     prop='C18',
-    corr=[('reach-cases', 4, 16, ['-n', '500'], ('',))],
+    corr=[('reach-cases', 4, 16, ['-n', '500'], ('',)), ('draw-cases', 4, 16, ['-n', '400'], ('',))],
     oracles=[('c18-oracle',
               [['-seed', '{seed}', '-reach', '300', '-edges', '20', '-draws', '4000', '-procs', '4'] for _ in range(4)],
               [['-seed', '{seed}', '-reach', '3000', '-edges', '120', '-draws', '4000', '-procs', '8'] for _ in range(16)])],
